@@ -1493,3 +1493,1081 @@ func rulePoolWrite(p *core.Program) []core.Obligation {
 	}
 	return obs
 }
+
+// ---------------------------------------------------------------------------------------------
+
+func init() {
+	register(&Rule{ID: "R-NOREPANIC", Min: 3, Run: ruleNoRepanic,
+		Doc: "a value obtained from recover() ends as an error: it never reaches a panic() again - neither in the handler nor, carried through a captured variable, in the function that started the goroutine. The plan's panic containment is built from the places that recover (R-PANICDOMAIN, R-JOIN assume that what lies below a recovering operator returns); a re-raised panic unwinds frames that wait for goroutines, past their joins, or - on a goroutine - ends the process"})
+
+	mutant(Mutant{Rule: "R-NOREPANIC", Name: "shard-panic-raised-again-on-the-caller", File: "execution/exchange/coalesce.go",
+		Old:  "\t\t\t\tswitch err := e.(type) {\n\t\t\t\tcase error:\n\t\t\t\t\terrChan <- errors.Wrapf(err, \"unexpected error\")\n\t\t\t\tdefault:\n\t\t\t\t\terrChan <- errors.Newf(\"unexpected error: %v\", e)\n\t\t\t\t}\n",
+		New:  "\t\t\t\tmu.Lock()\n\t\t\t\tpanicked = e\n\t\t\t\tmu.Unlock()\n\t\t\t\t_ = errors.Newf\n",
+		Old2: "\tvar numSeries uint64\n", New2: "\tvar numSeries uint64\n\tvar panicked any\n",
+		Old3: "\twg.Wait()\n\tclose(errChan)\n\tif err := errChan.getError(); err != nil {\n\t\treturn err\n\t}\n\n\tvar offset uint64\n", New3: "\twg.Wait()\n\tclose(errChan)\n\tif panicked != nil {\n\t\tpanic(panicked)\n\t}\n\tif err := errChan.getError(); err != nil {\n\t\treturn err\n\t}\n\n\tvar offset uint64\n",
+		Expect: "loadSeries"})
+}
+
+func ruleNoRepanic(p *core.Program) []core.Obligation {
+	const rule = "R-NOREPANIC"
+	var obs []core.Obligation
+	for _, fn := range p.Funcs {
+		f := fn
+		core.EachInstr(fn, func(_ *ssa.BasicBlock, _ int, ins ssa.Instruction) {
+			rc, ok := ins.(*ssa.Call)
+			if !ok {
+				return
+			}
+			if bi, ok := rc.Call.Value.(*ssa.Builtin); !ok || bi.Name() != "recover" {
+				return
+			}
+			key := core.FuncName(f) + " recovered value is not raised again"
+			// forward taint: values derived from the recovered value, the cells they are stored in (locals and
+			// captured variables, mapped to the variable of the enclosing function), loads of those cells
+			tainted := map[ssa.Value]bool{rc: true}
+			cells := map[ssa.Value]bool{}
+			// all functions of the family: the outermost enclosing function and its closures
+			root := f
+			for root.Parent() != nil {
+				root = root.Parent()
+			}
+			var family []*ssa.Function
+			var walk func(x *ssa.Function)
+			walk = func(x *ssa.Function) {
+				family = append(family, x)
+				for _, a := range x.AnonFuncs {
+					walk(a)
+				}
+			}
+			walk(root)
+			// free variable -> the value it is bound to in the function that makes the closure
+			bound := map[*ssa.FreeVar]ssa.Value{}
+			for _, g := range family {
+				core.EachInstr(g, func(_ *ssa.BasicBlock, _ int, x ssa.Instruction) {
+					if mc, ok := x.(*ssa.MakeClosure); ok {
+						if cf, ok := mc.Fn.(*ssa.Function); ok {
+							for i, b := range mc.Bindings {
+								if i < len(cf.FreeVars) {
+									bound[cf.FreeVars[i]] = b
+								}
+							}
+						}
+					}
+				})
+			}
+			cellOf := func(addr ssa.Value) ssa.Value {
+				for d := 0; d < 6; d++ {
+					if fv, ok := addr.(*ssa.FreeVar); ok {
+						b, ok := bound[fv]
+						if !ok {
+							return fv
+						}
+						addr = b
+						continue
+					}
+					return addr
+				}
+				return addr
+			}
+			var bad ssa.Instruction
+			for changed := true; changed; {
+				changed = false
+				for _, g := range family {
+					core.EachInstr(g, func(_ *ssa.BasicBlock, _ int, x ssa.Instruction) {
+						switch y := x.(type) {
+						case *ssa.Store:
+							if tainted[y.Val] {
+								c := cellOf(y.Addr)
+								if !cells[c] {
+									cells[c] = true
+									changed = true
+								}
+							}
+						case *ssa.UnOp:
+							if y.Op == token.MUL && cells[cellOf(y.X)] && !tainted[y] {
+								tainted[y] = true
+								changed = true
+							}
+						case *ssa.Phi:
+							for _, e := range y.Edges {
+								if tainted[e] && !tainted[y] {
+									tainted[y] = true
+									changed = true
+								}
+							}
+						case *ssa.MakeInterface:
+							if tainted[y.X] && !tainted[y] {
+								tainted[y] = true
+								changed = true
+							}
+						case *ssa.ChangeInterface:
+							if tainted[y.X] && !tainted[y] {
+								tainted[y] = true
+								changed = true
+							}
+						case *ssa.Panic:
+							if tainted[y.X] && bad == nil {
+								bad = y
+							}
+						}
+					})
+				}
+			}
+			if bad != nil {
+				obs = append(obs, core.Ob(rule, key, p.Pos(rc.Pos()), core.FuncName(f), core.Violated, "the recovered value reaches panic() at "+p.Pos(bad.Pos())+" in "+core.FuncName(bad.Parent())+": the panic continues on that goroutine - past frames that were going to wait for other goroutines, or to the end of the process"))
+			} else {
+				obs = append(obs, core.Ob(rule, key, p.Pos(rc.Pos()), core.FuncName(f), core.Held, "converted, never passed to panic()"))
+			}
+		})
+	}
+	return obs
+}
+
+// ---------------------------------------------------------------------------------------------
+
+func init() {
+	register(&Rule{ID: "R-DISTLAST", Min: 1, Run: ruleDistLast,
+		Doc: "where an engine's optimizer list is assembled, the distribution optimizer is appended after everything else: it is the only element of the last append. It replaces subtrees by node types of the repository (Coalesce, RemoteExecution) that the other optimizers do not know - they walk the plan with parser.Inspect / parser.Children, which panic on an unknown node type, in query planning, outside every recover"})
+
+	mutant(Mutant{Rule: "R-DISTLAST", Name: "plan-distributed-before-the-other-optimizers", File: "engine/engine.go",
+		Old: "\toptimizers = append(optimizers, opts.LogicalOptimizers...)\n\topts.LogicalOptimizers = append(optimizers, logicalplan.DistributedExecutionOptimizer{Endpoints: endpoints})\n",
+		New: "\toptimizers = append(optimizers, logicalplan.DistributedExecutionOptimizer{Endpoints: endpoints})\n\topts.LogicalOptimizers = append(optimizers, opts.LogicalOptimizers...)\n", Expect: "NewDistributedEngine"})
+}
+
+func ruleDistLast(p *core.Program) []core.Obligation {
+	const rule = "R-DISTLAST"
+	var obs []core.Obligation
+	isDist := func(t types.Type) bool {
+		return core.TypeIs(t, core.Module+"/logicalplan", "DistributedExecutionOptimizer")
+	}
+	for _, fn := range p.Funcs {
+		if !p.InRepo(fn) {
+			continue
+		}
+		f := fn
+		k := 0
+		core.EachInstr(fn, func(_ *ssa.BasicBlock, _ int, ins ssa.Instruction) {
+			mi, ok := ins.(*ssa.MakeInterface)
+			if !ok || !isDist(mi.X.Type()) {
+				return
+			}
+			if !core.TypeIs(mi.Type(), core.Module+"/logicalplan", "Optimizer") {
+				return
+			}
+			k++
+			key := fmt.Sprintf("%s puts the distribution optimizer last #%d", core.FuncName(f), k)
+			// the value is stored into the variadic array of an append, as its only element, and nothing is
+			// appended to the result afterwards; a helper that is handed the value (withOptimizer(list, last))
+			// is examined the same way, and what it returns is followed in the caller
+			bad := ""
+			var appendedBehind func(g *ssa.Function, v ssa.Value, seen map[ssa.Value]bool)
+			appendedBehind = func(g *ssa.Function, v ssa.Value, seen map[ssa.Value]bool) {
+				if seen[v] {
+					return
+				}
+				seen[v] = true
+				for _, r := range core.Referrers(v) {
+					switch x := r.(type) {
+					case *ssa.Call:
+						if bi, ok := x.Call.Value.(*ssa.Builtin); ok && bi.Name() == "append" && x.Call.Args[0] == v {
+							bad = "followed by another append at " + p.Pos(x.Pos())
+						}
+					case *ssa.Phi:
+						appendedBehind(g, x, seen)
+					case *ssa.Store:
+						if al, ok := x.Addr.(*ssa.Alloc); ok && x.Val == v {
+							for _, lr := range core.Referrers(al) {
+								if ld, ok := lr.(*ssa.UnOp); ok && ld.Op == token.MUL && core.InstrDominates(x, ld) {
+									appendedBehind(g, ld, seen)
+								}
+							}
+						}
+					}
+				}
+			}
+			var placed func(g *ssa.Function, v ssa.Value, depth int) bool
+			placed = func(g *ssa.Function, v ssa.Value, depth int) bool {
+				found := false
+				for _, r := range core.Referrers(v) {
+					switch x := r.(type) {
+					case *ssa.Store:
+						ia, ok := x.Addr.(*ssa.IndexAddr)
+						if !ok {
+							bad = "stored somewhere other than an append's argument list"
+							continue
+						}
+						arr, ok := ia.X.(*ssa.Alloc)
+						if !ok {
+							bad = "stored into an existing list"
+							continue
+						}
+						if at, ok := arr.Type().Underlying().(*types.Pointer).Elem().Underlying().(*types.Array); !ok || at.Len() != 1 {
+							bad = "one of several elements appended or listed together (its position is not the end by construction)"
+							continue
+						}
+						for _, rr := range core.Referrers(arr) {
+							sl, ok := rr.(*ssa.Slice)
+							if !ok {
+								continue
+							}
+							for _, r3 := range core.Referrers(sl) {
+								c, ok := r3.(*ssa.Call)
+								if !ok {
+									continue
+								}
+								if bi, ok := c.Call.Value.(*ssa.Builtin); ok && bi.Name() == "append" && len(c.Call.Args) == 2 && c.Call.Args[1] == ssa.Value(sl) {
+									found = true
+									appendedBehind(g, c, map[ssa.Value]bool{})
+									// the helper hands the list back: followed at its call sites
+									if g != f {
+										for _, caller := range p.Funcs {
+											core.EachInstr(caller, func(_ *ssa.BasicBlock, _ int, y ssa.Instruction) {
+												if cc, ok := y.(*ssa.Call); ok && cc.Call.StaticCallee() == g {
+													appendedBehind(caller, cc, map[ssa.Value]bool{})
+												}
+											})
+										}
+									}
+								}
+							}
+						}
+					case *ssa.Call:
+						h := x.Call.StaticCallee()
+						if h == nil || h.Blocks == nil || !p.InRepo(h) || depth >= 2 {
+							continue
+						}
+						for ai, a := range x.Call.Args {
+							if a == v && ai < len(h.Params) {
+								if placed(h, h.Params[ai], depth+1) {
+									found = true
+								}
+							}
+						}
+					}
+				}
+				return found
+			}
+			if !placed(f, mi, 0) && bad == "" {
+				bad = "not appended to an optimizer list here"
+			}
+			if bad != "" {
+				obs = append(obs, core.Ob(rule, key, p.Pos(mi.Pos()), core.FuncName(f), core.Violated, "the distribution optimizer is "+bad+": an optimizer that runs after it meets Coalesce/RemoteExecution nodes, which the parser's tree walkers reject with a panic while the query is planned"))
+			} else {
+				obs = append(obs, core.Ob(rule, key, p.Pos(mi.Pos()), core.FuncName(f), core.Held, "the only element of the last append onto the list"))
+			}
+		})
+	}
+	return obs
+}
+
+// ---------------------------------------------------------------------------------------------
+
+func init() {
+	register(&Rule{ID: "R-SELFCALL", Min: 30, Run: ruleSelfCall,
+		Doc: "a function (without receiver) that calls itself passes something other than its own parameters, or has replaced what a pointer parameter points to first: otherwise the call never terminates (the tree walkers of the planner recurse into a child slot, &node.Expr - passing the node's own slot again exhausts the stack, a fatal error no recover handler can stop). And the Next method of an operator never calls itself: one call hands out exactly the next batch"})
+	mutant(Mutant{Rule: "R-SELFCALL", Name: "empty-batch-skipped-by-recursion", File: "execution/scan/matrix_selector.go",
+		Old: "\to.currentStep += o.step * int64(o.numSteps)\n\n\treturn vectors, nil\n}\n\nfunc (o *matrixSelector) loadSeries", New: "\to.currentStep += o.step * int64(o.numSteps)\n\tempty := len(vectors) > 0\n\tfor i := range vectors {\n\t\tif len(vectors[i].Samples) > 0 {\n\t\t\tempty = false\n\t\t}\n\t}\n\tif empty {\n\t\treturn o.Next(ctx)\n\t}\n\n\treturn vectors, nil\n}\n\nfunc (o *matrixSelector) loadSeries", Expect: "matrixSelector.Next"})
+
+	mutant(Mutant{Rule: "R-SELFCALL", Name: "recursion-on-the-same-node", File: "logicalplan/distribute.go",
+		Old: "\tcase *parser.ParenExpr:\n\t\tunmergeSelectors(&node.Expr)\n", New: "\tcase *parser.ParenExpr:\n\t\tunmergeSelectors(expr)\n", Expect: "unmergeSelectors"})
+}
+
+func ruleSelfCall(p *core.Program) []core.Obligation {
+	const rule = "R-SELFCALL"
+	var obs []core.Obligation
+	for _, fn := range p.Funcs {
+		if !p.InRepo(fn) || len(fn.Params) == 0 {
+			continue
+		}
+		f := fn
+		k := 0
+		isNext := fn.Parent() == nil && fn.Name() == "Next" && isOperatorMethod(fn)
+		selfCalls := 0
+		core.EachInstr(fn, func(_ *ssa.BasicBlock, _ int, ins ssa.Instruction) {
+			c, ok := ins.(*ssa.Call)
+			if !ok || c.Call.StaticCallee() != f || len(c.Call.Args) != len(f.Params) {
+				return
+			}
+			selfCalls++
+			if f.Signature.Recv() != nil {
+				return // a method may have changed its receiver's state: progress is not visible in the arguments
+			}
+			k++
+			key := fmt.Sprintf("%s recursive call #%d makes progress", core.FuncName(f), k)
+			same := true
+			for i, a := range c.Call.Args {
+				if a != ssa.Value(f.Params[i]) {
+					same = false
+				}
+			}
+			// ... unless what a pointer parameter points to was replaced before the call (*expr = inner; walk(expr))
+			replaced := false
+			if same {
+				core.EachInstr(f, func(_ *ssa.BasicBlock, _ int, x ssa.Instruction) {
+					st, ok := x.(*ssa.Store)
+					if !ok {
+						return
+					}
+					if _, isParam := st.Addr.(*ssa.Parameter); isParam && core.InstrDominates(st, c) {
+						replaced = true
+					}
+				})
+			}
+			if same && !replaced {
+				obs = append(obs, core.Ob(rule, key, p.Pos(c.Pos()), core.FuncName(f), core.Violated, "every argument is the function's own parameter and nothing they point to was replaced: the call repeats itself until the stack is exhausted, which ends the process (no recover handler catches a stack overflow)"))
+			} else {
+				obs = append(obs, core.Ob(rule, key, p.Pos(c.Pos()), core.FuncName(f), core.Held, "an argument differs from the caller's parameter, or the node behind it was replaced first"))
+			}
+		})
+		if isNext {
+			recv := recvNamed(fn)
+			key := fmt.Sprintf("%s.Next hands out one batch per call", recv.Obj().Name())
+			if selfCalls > 0 {
+				obs = append(obs, core.Ob(rule, key, p.Pos(fn.Pos()), core.FuncName(fn), core.Violated, "Next calls itself (to skip a batch it considers empty): its consumer then receives the batch after the one its siblings hand out for the same call, and operators that pair or merge their operands by batch position (coalesce, binary operators, scalar arguments) combine different time ranges"))
+			} else {
+				obs = append(obs, core.Ob(rule, key, p.Pos(fn.Pos()), core.FuncName(fn), core.Held, "no recursive call"))
+			}
+		}
+	}
+	return obs
+}
+
+// ---------------------------------------------------------------------------------------------
+
+func init() {
+	register(&Rule{ID: "R-CTXEXIT", Min: 12, Run: ruleCtxExit,
+		Doc: "where a function that reports errors observes that its context is done - a select case receiving from ctx.Done(), or a test of ctx.Err() against nil - every return it reaches on that path hands back the context's error (a value computed from ctx.Err()), or the error was sent on a channel first. A loop that merely stops when the context is done falls through to the code that builds a result from what was collected so far: a cancelled query returns a partial result as success"})
+
+	mutant(Mutant{Rule: "R-CTXEXIT", Name: "batch-loop-stops-quietly-on-cancellation", File: "engine/engine.go",
+		Old: "\t\tcase <-ctx.Done():\n\t\t\treturn newErrResult(ret, ctx.Err())\n\t\tdefault:\n\t\t\tr, err := q.Query.exec.Next(ctx)\n", New: "\t\tcase <-ctx.Done():\n\t\t\tbreak loop\n\t\tdefault:\n\t\t\tr, err := q.Query.exec.Next(ctx)\n", Expect: "Exec"})
+}
+
+func ruleCtxExit(p *core.Program) []core.Obligation {
+	const rule = "R-CTXEXIT"
+	var obs []core.Obligation
+	isCtxCall := func(v ssa.Value, method string) bool {
+		c, ok := v.(*ssa.Call)
+		if !ok || !c.Call.IsInvoke() || c.Call.Method.Name() != method {
+			return false
+		}
+		return core.TypeIs(c.Call.Value.Type(), "context", "Context")
+	}
+	fromCtxErr := func(v ssa.Value) bool {
+		hit := false
+		core.BackSlice(v, func(x ssa.Value) bool {
+			if isCtxCall(x, "Err") {
+				hit = true
+			}
+			return !hit
+		})
+		return hit
+	}
+	errT := types.Universe.Lookup("error").Type()
+	for _, fn := range p.Funcs {
+		if !p.InRepo(fn) {
+			continue
+		}
+		// only functions that can report: an error result, or a result record with an error (promql.Result)
+		reports := false
+		for i := 0; i < fn.Signature.Results().Len(); i++ {
+			t := fn.Signature.Results().At(i).Type()
+			if types.Identical(t, errT) || core.TypeIs(t, pkgPromql, "Result") {
+				reports = true
+			}
+			if pt, ok := t.Underlying().(*types.Pointer); ok && core.TypeIs(pt.Elem(), pkgPromql, "Result") {
+				reports = true
+			}
+		}
+		if !reports {
+			continue
+		}
+		f := fn
+		k := 0
+		type inst struct {
+			from   *ssa.BasicBlock
+			target *ssa.BasicBlock
+			pos    token.Pos
+		}
+		var insts []inst
+		for _, b := range fn.Blocks {
+			iff := core.IfOf(b)
+			if iff == nil {
+				continue
+			}
+			bo, ok := iff.Cond.(*ssa.BinOp)
+			if !ok || (bo.Op != token.EQL && bo.Op != token.NEQ) {
+				continue
+			}
+			// ctx.Err() != nil
+			if (isCtxCall(bo.X, "Err") && core.IsNilConst(bo.Y)) || (isCtxCall(bo.Y, "Err") && core.IsNilConst(bo.X)) {
+				succ := 0
+				if bo.Op == token.EQL {
+					succ = 1
+				}
+				insts = append(insts, inst{b, b.Succs[succ], iff.Pos()})
+				continue
+			}
+			// select index == i where state i receives from ctx.Done()
+			if bo.Op == token.EQL {
+				if ex, ok := bo.X.(*ssa.Extract); ok && ex.Index == 0 {
+					if sel, ok := ex.Tuple.(*ssa.Select); ok {
+						if n, ok := core.ConstInt(bo.Y); ok && n >= 0 && int(n) < len(sel.States) {
+							st := sel.States[n]
+							if st.Dir == types.RecvOnly && isCtxCall(st.Chan, "Done") {
+								insts = append(insts, inst{b, b.Succs[0], sel.Pos()})
+							}
+						}
+					}
+				}
+			}
+		}
+		for _, in := range insts {
+			k++
+			key := fmt.Sprintf("%s returns the context's error when it finds the context done #%d", core.FuncName(f), k)
+			bad := ""
+			seen := map[*ssa.BasicBlock]bool{in.from: true}
+			var walk func(b *ssa.BasicBlock)
+			walk = func(b *ssa.BasicBlock) {
+				if seen[b] || bad != "" {
+					return
+				}
+				seen[b] = true
+				for _, x := range b.Instrs {
+					switch y := x.(type) {
+					case *ssa.Send:
+						if fromCtxErr(y.X) {
+							return
+						}
+					case *ssa.Return:
+						ok := false
+						for _, r := range core.RetResults(y) {
+							if fromCtxErr(r) {
+								ok = true
+							}
+						}
+						if !ok {
+							bad = p.Pos(y.Pos())
+						}
+						return
+					case *ssa.Panic:
+						return
+					}
+				}
+				for _, s := range b.Succs {
+					walk(s)
+				}
+			}
+			walk(in.target)
+			if bad != "" {
+				obs = append(obs, core.Ob(rule, key, p.Pos(in.pos), core.FuncName(f), core.Violated, "from the branch taken when the context is done, the return at "+bad+" is reached and does not carry ctx.Err(): the cancelled call looks like an ordinary end of the stream / a successful result"))
+			} else {
+				obs = append(obs, core.Ob(rule, key, p.Pos(in.pos), core.FuncName(f), core.Held, "every return on that path carries ctx.Err()"))
+			}
+		}
+	}
+	return obs
+}
+
+// ---------------------------------------------------------------------------------------------
+
+func init() {
+	register(&Rule{ID: "R-STRICTCMP", Min: 2, Run: ruleStrictCmp,
+		Doc: "a comparator over sample values (a func(float64, float64) bool built in the aggregation operators, the order of topk/bottomk) is a strict comparison of its two parameters, < or >: the negation of a strict order (!less(a, b)) is not the reversed order - it is also true for equal values and whenever one side is NaN, so a NaN sample is admitted to a full heap and ties evict the element that arrived first"})
+	register(&Rule{ID: "R-LOOKBACKASIS", Min: 1, Run: ruleLookbackAsIs,
+		Doc: "a selector operator takes the look-back delta of its options as it is: the value stored into its lookbackDelta field is computed from Options.LookbackDelta on every path, with no default substituted. The engine fills in its default when the query is created; a look-back of 0 is meaningful (the operator that reads the results of a remote engine must only see samples exactly on a step)"})
+	register(&Rule{ID: "R-HINTSTEP", Min: 1, Run: ruleHintStep,
+		Doc: "the Step of the select hints is written once, where the hints record of a query is created (execution.New), from the query's step: no planning function assigns hints.Step again. The reference engine hands every select the query step; a capped or rounded step hint makes a down-sampling storage pick another resolution than it does for the reference"})
+	register(&Rule{ID: "R-SELECTMATCHERS", Min: 1, Run: ruleSelectMatchers,
+		Doc: "the matchers a storage select is issued with are the selector's own matcher list, handed down unchanged from the plan node through the selector pool: on the way from GetSelector/GetFilteredSelector to Querier.Select the list is only stored and loaded, never rebuilt (make, append, a filtering helper). The reference engine passes the matchers as written; a storage may treat foo{pod=~\".*\"} and foo differently (tenancy, sharding by matcher)"})
+
+	mutant(Mutant{Rule: "R-STRICTCMP", Name: "bottomk-as-negated-topk", File: "execution/aggregate/khashaggregate.go",
+		Old: "\t\t\treturn s < f\n", New: "\t\t\treturn !(f < s)\n", Expect: "NewKHashAggregate"})
+	mutant(Mutant{Rule: "R-LOOKBACKASIS", Name: "selector-substitutes-a-default-lookback", File: "execution/scan/vector_selector.go",
+		Old: "\treturn &vectorSelector{\n", New: "\tlookback := queryOpts.LookbackDelta\n\tif lookback <= 0 {\n\t\tlookback = 5 * time.Minute\n\t}\n\treturn &vectorSelector{\n",
+		Old2: "\t\tlookbackDelta: queryOpts.LookbackDelta.Milliseconds(),\n", New2: "\t\tlookbackDelta: lookback.Milliseconds(),\n", Expect: "NewVectorSelector"})
+	mutant(Mutant{Rule: "R-HINTSTEP", Name: "step-hint-capped-at-the-range", File: "execution/execution.go",
+		Old: "\t\t\t\thints.Range = t.Range.Milliseconds()\n", New: "\t\t\t\thints.Range = t.Range.Milliseconds()\n\t\t\t\tif hints.Step > hints.Range {\n\t\t\t\t\thints.Step = hints.Range\n\t\t\t\t}\n", Expect: "newOperator"})
+	mutant(Mutant{Rule: "R-SELECTMATCHERS", Name: "match-all-matchers-dropped-before-select", File: "execution/storage/series_selector.go",
+		Old: "\tseriesSet := querier.Select(false, &o.hints, o.matchers...)\n", New: "\tselective := make([]*labels.Matcher, 0, len(o.matchers))\n\tfor _, m := range o.matchers {\n\t\tif !(m.Type == labels.MatchRegexp && m.Value == \".*\") {\n\t\t\tselective = append(selective, m)\n\t\t}\n\t}\n\tseriesSet := querier.Select(false, &o.hints, selective...)\n", Expect: "Select"})
+}
+
+func ruleStrictCmp(p *core.Program) []core.Obligation {
+	const rule = "R-STRICTCMP"
+	var obs []core.Obligation
+	isCmpSig := func(sig *types.Signature) bool {
+		if sig.Params().Len() != 2 || sig.Results().Len() != 1 {
+			return false
+		}
+		return isFloatType(sig.Params().At(0).Type()) && isFloatType(sig.Params().At(1).Type()) && types.Identical(sig.Results().At(0).Type(), types.Typ[types.Bool])
+	}
+	for _, fn := range p.Funcs {
+		if fn.Parent() == nil || !hasPrefixRel(fn, "execution/aggregate") || !isCmpSig(fn.Signature) {
+			continue
+		}
+		key := fmt.Sprintf("comparator %s built in %s is a strict comparison", fn.Name(), core.FuncName(fn.Parent()))
+		bad := ""
+		core.EachInstr(fn, func(_ *ssa.BasicBlock, _ int, ins ssa.Instruction) {
+			ret, ok := ins.(*ssa.Return)
+			if !ok {
+				return
+			}
+			for v := range core.PhiClosure(ret.Results[0]) {
+				if _, isPhi := v.(*ssa.Phi); isPhi {
+					continue
+				}
+				bo, ok := v.(*ssa.BinOp)
+				if ok && (bo.Op == token.LSS || bo.Op == token.GTR) {
+					_, px := bo.X.(*ssa.Parameter)
+					_, py := bo.Y.(*ssa.Parameter)
+					if px && py {
+						continue
+					}
+				}
+				bad = p.Pos(ret.Pos())
+			}
+		})
+		if bad != "" {
+			obs = append(obs, core.Ob(rule, key, bad, core.FuncName(fn), core.Violated, "the comparator returns something other than a < or > of its two parameters (a negation, <=, a call): for equal values and for NaN it does not behave like the reversed strict order the reference engine uses"))
+		} else {
+			obs = append(obs, core.Ob(rule, key, p.Pos(fn.Pos()), core.FuncName(fn), core.Held, "returns a < or > of its parameters"))
+		}
+	}
+	return obs
+}
+
+func ruleLookbackAsIs(p *core.Program) []core.Obligation {
+	const rule = "R-LOOKBACKASIS"
+	var obs []core.Obligation
+	for _, fn := range p.Funcs {
+		if !hasPrefixRel(fn, "execution") {
+			continue
+		}
+		f := fn
+		core.EachInstr(fn, func(_ *ssa.BasicBlock, _ int, ins ssa.Instruction) {
+			st, ok := ins.(*ssa.Store)
+			if !ok {
+				return
+			}
+			n, fld, _, ok := core.FieldRef(st.Addr)
+			if !ok || n == nil || fld != "lookbackDelta" {
+				return
+			}
+			key := fmt.Sprintf("%s sets %s.lookbackDelta from the options as they are", core.FuncName(f), n.Obj().Name())
+			// every alternative of the stored value derives from Options.LookbackDelta and from no constant duration
+			bad := ""
+			var check func(v ssa.Value, depth int)
+			seen := map[ssa.Value]bool{}
+			check = func(v ssa.Value, depth int) {
+				if seen[v] || depth > 12 || bad != "" {
+					return
+				}
+				seen[v] = true
+				switch x := v.(type) {
+				case *ssa.Phi:
+					for _, e := range x.Edges {
+						check(e, depth+1)
+					}
+				case *ssa.Call:
+					if core.CalleeName(&x.Call) == "(time.Duration).Milliseconds" {
+						check(x.Call.Args[0], depth+1)
+						return
+					}
+					bad = "computed by a call of " + core.CalleeName(&x.Call)
+				case *ssa.Convert:
+					check(x.X, depth+1)
+				case *ssa.ChangeType:
+					check(x.X, depth+1)
+				case *ssa.UnOp:
+					if x.Op == token.MUL {
+						if nn, ff, _, ok := core.FieldRef(x.X); ok && nn != nil && nn.Obj().Name() == "Options" && ff == "LookbackDelta" {
+							return
+						}
+					}
+					bad = "a value other than Options.LookbackDelta"
+				case *ssa.Const:
+					bad = "the constant " + x.String()
+				case *ssa.BinOp:
+					bad = "computed with " + x.Op.String()
+				default:
+					bad = fmt.Sprintf("a value of unrecognised origin (%T)", v)
+				}
+			}
+			check(st.Val, 0)
+			if bad != "" {
+				obs = append(obs, core.Ob(rule, key, p.Pos(st.Pos()), core.FuncName(f), core.Violated, "on some path the stored look-back is "+bad+": a look-back of 0 - what the operator over a remote engine's results asks for - is replaced, and samples of a partition that ended are kept alive for that long"))
+			} else {
+				obs = append(obs, core.Ob(rule, key, p.Pos(st.Pos()), core.FuncName(f), core.Held, "Options.LookbackDelta in milliseconds on every path"))
+			}
+		})
+	}
+	return obs
+}
+
+func ruleHintStep(p *core.Program) []core.Obligation {
+	const rule = "R-HINTSTEP"
+	var obs []core.Obligation
+	root := p.Func("execution", "New")
+	n := 0
+	for _, fn := range p.Funcs {
+		if !hasPrefixRel(fn, "execution") {
+			continue
+		}
+		f := fn
+		core.EachInstr(fn, func(_ *ssa.BasicBlock, _ int, ins ssa.Instruction) {
+			st, ok := ins.(*ssa.Store)
+			if !ok || !core.IsFieldOf(st.Addr, pkgStorage, "SelectHints", "Step") {
+				return
+			}
+			n++
+			key := fmt.Sprintf("%s writes the step hint #%d", core.FuncName(f), n)
+			if f == root {
+				obs = append(obs, core.Ob(rule, key, p.Pos(st.Pos()), core.FuncName(f), core.Held, "where the query's hints record is created"))
+			} else {
+				obs = append(obs, core.Ob(rule, key, p.Pos(st.Pos()), core.FuncName(f), core.Violated, "the step hint is assigned again while the plan is built: selects below this node carry a step other than the query's, which the reference engine never does"))
+			}
+		})
+	}
+	if root == nil {
+		obs = append(obs, core.Ob(rule, "execution.New", "-", "", core.Lost, "not found"))
+	}
+	return obs
+}
+
+func ruleSelectMatchers(p *core.Program) []core.Obligation {
+	const rule = "R-SELECTMATCHERS"
+	var obs []core.Obligation
+	isMatchers := func(t types.Type) bool {
+		sl, ok := t.Underlying().(*types.Slice)
+		if !ok {
+			return false
+		}
+		pt, ok := sl.Elem().Underlying().(*types.Pointer)
+		return ok && core.TypeIs(pt.Elem(), pkgLabels, "Matcher")
+	}
+	// origin: "" when the list is handed down unchanged, else what rebuilt it
+	var origin func(fn *ssa.Function, v ssa.Value, depth int, seen map[ssa.Value]bool) string
+	origin = func(fn *ssa.Function, v ssa.Value, depth int, seen map[ssa.Value]bool) string {
+		if depth > 8 || seen[v] {
+			return ""
+		}
+		seen[v] = true
+		switch x := v.(type) {
+		case *ssa.Parameter:
+			// exported entry points of the pool receive the plan's list; unexported functions: their callers
+			pf := x.Parent()
+			if pf == nil || token.IsExported(pf.Name()) || !hasPrefixRel(pf, "execution/storage") {
+				return ""
+			}
+			idx := -1
+			for i, q := range pf.Params {
+				if q == x {
+					idx = i
+				}
+			}
+			for _, caller := range p.Funcs {
+				res := ""
+				core.EachInstr(caller, func(_ *ssa.BasicBlock, _ int, ins ssa.Instruction) {
+					cc := core.CallCommon(ins)
+					if cc == nil || cc.StaticCallee() != pf || idx < 0 || idx >= len(cc.Args) || res != "" {
+						return
+					}
+					res = origin(caller, cc.Args[idx], depth+1, seen)
+				})
+				if res != "" {
+					return res
+				}
+			}
+			return ""
+		case *ssa.UnOp:
+			if x.Op != token.MUL {
+				return ""
+			}
+			n, f, _, ok := core.FieldRef(x.X)
+			if !ok || n == nil {
+				return ""
+			}
+			if n.Obj().Pkg() != nil && n.Obj().Pkg().Path() == pkgParser {
+				return "" // the plan node's own list
+			}
+			// every store into this field
+			for _, g := range p.Funcs {
+				res := ""
+				core.EachInstr(g, func(_ *ssa.BasicBlock, _ int, ins ssa.Instruction) {
+					st, ok := ins.(*ssa.Store)
+					if !ok || res != "" {
+						return
+					}
+					if n2, f2, _, ok := core.FieldRef(st.Addr); ok && n2 == n && f2 == f {
+						res = origin(g, st.Val, depth+1, seen)
+					}
+				})
+				if res != "" {
+					return res
+				}
+			}
+			return ""
+		case *ssa.Phi:
+			for _, e := range x.Edges {
+				if r := origin(fn, e, depth+1, seen); r != "" {
+					return r
+				}
+			}
+			return ""
+		case *ssa.Slice:
+			if x.Low != nil || x.High != nil {
+				return "a sub-slice at " + p.Pos(x.Pos())
+			}
+			return origin(fn, x.X, depth+1, seen)
+		case *ssa.MakeSlice:
+			return "a list allocated at " + p.Pos(x.Pos())
+		case *ssa.Call:
+			if bi, ok := x.Call.Value.(*ssa.Builtin); ok && bi.Name() == "append" {
+				return "an append at " + p.Pos(x.Pos())
+			}
+			return "the result of " + strings.ReplaceAll(core.CalleeName(&x.Call), core.Module+"/", "") + " at " + p.Pos(x.Pos())
+		case *ssa.Alloc:
+			for _, r := range core.Referrers(x) {
+				if st, ok := r.(*ssa.Store); ok && st.Addr == ssa.Value(x) {
+					if res := origin(fn, st.Val, depth+1, seen); res != "" {
+						return res
+					}
+				}
+			}
+			return ""
+		case *ssa.Const:
+			return ""
+		}
+		return ""
+	}
+	for _, fn := range p.Funcs {
+		if !hasPrefixRel(fn, "execution/storage") {
+			continue
+		}
+		f := fn
+		k := 0
+		core.EachInstr(fn, func(_ *ssa.BasicBlock, _ int, ins ssa.Instruction) {
+			c, ok := ins.(*ssa.Call)
+			if !ok || !c.Call.IsInvoke() || c.Call.Method.Name() != "Select" {
+				return
+			}
+			var m ssa.Value
+			for _, a := range c.Call.Args {
+				if isMatchers(a.Type()) {
+					m = a
+				}
+			}
+			if m == nil {
+				return
+			}
+			k++
+			key := fmt.Sprintf("%s issues Select #%d with the plan's matcher list", core.FuncName(f), k)
+			if r := origin(f, m, 0, map[ssa.Value]bool{}); r != "" {
+				obs = append(obs, core.Ob(rule, key, p.Pos(c.Pos()), core.FuncName(f), core.Violated, "the matcher list of the select is "+r+", not the selector's list as it came from the plan: the storage sees other matchers than with the reference engine"))
+			} else {
+				obs = append(obs, core.Ob(rule, key, p.Pos(c.Pos()), core.FuncName(f), core.Held, "stored and loaded only on the way from the plan node"))
+			}
+		})
+	}
+	return obs
+}
+
+// ---------------------------------------------------------------------------------------------
+
+func init() {
+	register(&Rule{ID: "R-ONCEPERITER", Min: 6, Run: ruleOncePerIter,
+		Doc: "a loop of an operator that appends one sample per iteration to a step vector (one output series, one group, one input sample per iteration) appends to that vector's Samples at most once on every path through an iteration: a second append on a path that was meant to `continue` gives one series two samples with the same ID at the same step"})
+	register(&Rule{ID: "R-BUFRESET", Min: 1, Run: ruleBufReset,
+		Doc: "a slice field of an operator that the per-batch code (Next and what it calls, outside the once-guarded initialisation) grows by append is emptied by that code as well (f = f[:0], a fresh make, or nil): a buffer that is only ever appended to keeps the values of earlier batches in front of the current ones, and code that indexes it relative to the batch reads stale entries from the second batch on"})
+	register(&Rule{ID: "R-IDOFFSET", Min: 1, Run: ruleIDOffset,
+		Doc: "where the exchange operators translate the sample IDs of an operand into the IDs of the merged stream, the new ID is computed from the old ID of the same sample (old + offset of the operand): an ID derived from the sample's position in the step vector is only right while every series of the operand has a sample at the step"})
+
+	mutant(Mutant{Rule: "R-ONCEPERITER", Name: "nan-branch-falls-through", File: "execution/function/histogram.go",
+		Old: "\t\t\t\tstep.SampleIDs = append(step.SampleIDs, uint64(i))\n\t\t\t\tstep.Samples = append(step.Samples, math.NaN())\n\t\t\t\tcontinue\n", New: "\t\t\t\tstep.SampleIDs = append(step.SampleIDs, uint64(i))\n\t\t\t\tstep.Samples = append(step.Samples, math.NaN())\n", Expect: "histogramOperator"})
+	mutant(Mutant{Rule: "R-BUFRESET", Name: "scalar-buffer-never-emptied", File: "execution/function/histogram.go",
+		Old: "\to.scalarPoints = o.scalarPoints[:0]\n", New: "", Expect: "scalarPoints"})
+	mutant(Mutant{Rule: "R-IDOFFSET", Name: "merged-ids-from-positions", File: "execution/exchange/coalesce.go",
+		Old: "\t\t\t\t\tvector.SampleIDs[i] += c.sampleOffsets[opIdx]\n", New: "\t\t\t\t\tvector.SampleIDs[i] = c.sampleOffsets[opIdx] + uint64(i)\n", Expect: "coalesceOperator"})
+}
+
+// samplesAppendBase: ins is `X.Samples = append(X.Samples, one value)`; returns the address of X.Samples.
+func samplesAppendBase(ins ssa.Instruction) ssa.Value {
+	st, ok := ins.(*ssa.Store)
+	if !ok {
+		return nil
+	}
+	n, f, _, ok := core.FieldRef(st.Addr)
+	if !ok || n == nil || n.Obj().Name() != "StepVector" || f != "Samples" {
+		return nil
+	}
+	c, ok := st.Val.(*ssa.Call)
+	if !ok {
+		return nil
+	}
+	if bi, ok := c.Call.Value.(*ssa.Builtin); !ok || bi.Name() != "append" || len(c.Call.Args) != 2 {
+		return nil
+	}
+	// one element packed at the call (not append(a, b...))
+	sl, ok := c.Call.Args[1].(*ssa.Slice)
+	if !ok {
+		return nil
+	}
+	if _, packed := sl.X.(*ssa.Alloc); !packed {
+		return nil
+	}
+	return st.Addr
+}
+
+func ruleOncePerIter(p *core.Program) []core.Obligation {
+	const rule = "R-ONCEPERITER"
+	var obs []core.Obligation
+	for _, fn := range p.Funcs {
+		if !hasPrefixRel(fn, "execution") {
+			continue
+		}
+		loops := core.LoopBodies(fn)
+		if len(loops) == 0 {
+			continue
+		}
+		// appends grouped by their innermost loop
+		type grp struct {
+			header *ssa.BasicBlock
+			body   map[*ssa.BasicBlock]bool
+			sites  []ssa.Instruction
+		}
+		groups := map[*ssa.BasicBlock]*grp{}
+		core.EachInstr(fn, func(b *ssa.BasicBlock, _ int, ins ssa.Instruction) {
+			if samplesAppendBase(ins) == nil {
+				return
+			}
+			var best *ssa.BasicBlock
+			for h, body := range loops {
+				if body[b] && (best == nil || len(body) < len(loops[best])) {
+					best = h
+				}
+			}
+			if best == nil {
+				return
+			}
+			g := groups[best]
+			if g == nil {
+				g = &grp{header: best, body: loops[best]}
+				groups[best] = g
+			}
+			g.sites = append(g.sites, ins)
+		})
+		var hs []*ssa.BasicBlock
+		for h := range groups {
+			hs = append(hs, h)
+		}
+		sort.Slice(hs, func(i, j int) bool { return hs[i].Index < hs[j].Index })
+		for k, h := range hs {
+			g := groups[h]
+			recv := "func"
+			if r := recvNamed(fn); r != nil {
+				recv = r.Obj().Name()
+			}
+			key := fmt.Sprintf("%s.%s loop #%d appends one sample per iteration", recv, fn.Name(), k+1)
+			// appends to the same vector (same address expression) per block
+			count := map[*ssa.BasicBlock]int{}
+			var ref ssa.Value
+			for _, s := range g.sites {
+				a := samplesAppendBase(s)
+				if ref == nil {
+					ref = a
+				}
+				if core.SameExpr(a, ref) || a == ref {
+					count[s.Block()]++
+				}
+			}
+			// longest path (in appends) through one iteration: DFS over the body without re-entering the header
+			// and without entering inner loops twice
+			best := 0
+			var worst ssa.Instruction
+			var dfs func(b *ssa.BasicBlock, acc int, onPath map[*ssa.BasicBlock]bool)
+			dfs = func(b *ssa.BasicBlock, acc int, onPath map[*ssa.BasicBlock]bool) {
+				if !g.body[b] || onPath[b] {
+					return
+				}
+				onPath[b] = true
+				acc += count[b]
+				if acc > best {
+					best = acc
+					for _, s := range g.sites {
+						if s.Block() == b {
+							worst = s
+						}
+					}
+				}
+				for _, s := range b.Succs {
+					if s == g.header {
+						continue
+					}
+					dfs(s, acc, onPath)
+				}
+				delete(onPath, b)
+			}
+			dfs(g.header, 0, map[*ssa.BasicBlock]bool{})
+			if best > 1 {
+				obs = append(obs, core.Ob(rule, key, p.Pos(worst.Pos()), core.FuncName(fn), core.Violated, fmt.Sprintf("a path through one iteration appends %d samples to the same step vector (the last one here): the iteration's series gets two samples with one ID at the step", best)))
+			} else {
+				obs = append(obs, core.Ob(rule, key, p.Pos(g.sites[0].Pos()), core.FuncName(fn), core.Held, "at most one append on every path through an iteration"))
+			}
+		}
+	}
+	return obs
+}
+
+// nextPathFuncs: the methods of operator types that run per batch: Next and the repository functions it calls
+// statically, not entering closures handed to sync.Once.Do (one-time initialisation).
+func nextPathFuncs(p *core.Program) map[*ssa.Function]bool {
+	out := map[*ssa.Function]bool{}
+	var walk func(f *ssa.Function, depth int)
+	walk = func(f *ssa.Function, depth int) {
+		if f == nil || f.Blocks == nil || out[f] || !p.InRepo(f) || depth > 4 {
+			return
+		}
+		out[f] = true
+		core.EachInstr(f, func(_ *ssa.BasicBlock, _ int, ins ssa.Instruction) {
+			if c, ok := ins.(*ssa.Call); ok {
+				if callee := c.Call.StaticCallee(); callee != nil && recvNamed(callee) == recvNamed(f) {
+					walk(callee, depth+1)
+				}
+			}
+		})
+	}
+	for _, fn := range p.Funcs {
+		if fn.Parent() == nil && fn.Name() == "Next" && isOperatorMethod(fn) {
+			walk(fn, 0)
+		}
+	}
+	return out
+}
+
+func ruleBufReset(p *core.Program) []core.Obligation {
+	const rule = "R-BUFRESET"
+	var obs []core.Obligation
+	path := nextPathFuncs(p)
+	type fk struct {
+		t *types.Named
+		f string
+	}
+	grown := map[fk]ssa.Instruction{}
+	reset := map[fk]bool{}
+	var fns []*ssa.Function
+	for f := range path {
+		fns = append(fns, f)
+	}
+	sort.Slice(fns, func(i, j int) bool { return fns[i].String() < fns[j].String() })
+	for _, fn := range fns {
+		recv := recvNamed(fn)
+		if recv == nil || len(fn.Params) == 0 {
+			continue
+		}
+		core.EachInstr(fn, func(_ *ssa.BasicBlock, _ int, ins ssa.Instruction) {
+			st, ok := ins.(*ssa.Store)
+			if !ok {
+				return
+			}
+			fa, ok := st.Addr.(*ssa.FieldAddr)
+			if !ok || !rootedAtReceiver(fn, fa.X) {
+				return
+			}
+			n, f, _, ok := core.FieldRef(fa)
+			if !ok || n != recv {
+				return
+			}
+			if _, isSlice := st.Val.Type().Underlying().(*types.Slice); !isSlice {
+				return
+			}
+			k := fk{n, f}
+			switch v := st.Val.(type) {
+			case *ssa.Call:
+				if bi, ok := v.Call.Value.(*ssa.Builtin); ok && bi.Name() == "append" {
+					if ld, ok := v.Call.Args[0].(*ssa.UnOp); ok && core.SameExpr(ld.X, fa) {
+						if _, seen := grown[k]; !seen {
+							grown[k] = st
+						}
+						return
+					}
+				}
+				reset[k] = true // the result of some other call: a new list
+			case *ssa.Slice:
+				reset[k] = true
+			case *ssa.MakeSlice, *ssa.Const:
+				reset[k] = true
+			default:
+				reset[k] = true
+			}
+		})
+	}
+	var ks []fk
+	for k := range grown {
+		ks = append(ks, k)
+	}
+	sort.Slice(ks, func(i, j int) bool { return ks[i].t.Obj().Name()+ks[i].f < ks[j].t.Obj().Name()+ks[j].f })
+	for _, k := range ks {
+		st := grown[k]
+		key := fmt.Sprintf("%s.%s, grown per batch, is emptied per batch", k.t.Obj().Name(), k.f)
+		if reset[k] {
+			obs = append(obs, core.Ob(rule, key, p.Pos(st.Pos()), core.FuncName(st.Parent()), core.Held, "the per-batch code also assigns an emptied or new list"))
+		} else {
+			obs = append(obs, core.Ob(rule, key, p.Pos(st.Pos()), core.FuncName(st.Parent()), core.Violated, "the per-batch code only ever appends to this field: it grows from batch to batch and keeps the entries of earlier batches in front"))
+		}
+	}
+	return obs
+}
+
+func ruleIDOffset(p *core.Program) []core.Obligation {
+	const rule = "R-IDOFFSET"
+	var obs []core.Obligation
+	for _, fn := range p.Funcs {
+		if !hasPrefixRel(fn, "execution/exchange") {
+			continue
+		}
+		f := fn
+		k := 0
+		core.EachInstr(fn, func(_ *ssa.BasicBlock, _ int, ins ssa.Instruction) {
+			st, ok := ins.(*ssa.Store)
+			if !ok {
+				return
+			}
+			ia, ok := st.Addr.(*ssa.IndexAddr)
+			if !ok {
+				return
+			}
+			ld := core.Deref(ia.X)
+			if ld == nil {
+				return
+			}
+			n, fld, _, ok := core.FieldRef(ld)
+			if !ok || n == nil || n.Obj().Name() != "StepVector" || fld != "SampleIDs" {
+				return
+			}
+			k++
+			root := f
+			for root.Parent() != nil {
+				root = root.Parent()
+			}
+			recv := "func"
+			if r := recvNamed(root); r != nil {
+				recv = r.Obj().Name()
+			}
+			key := fmt.Sprintf("%s.%s rewrites a sample ID #%d from the ID it replaces", recv, root.Name(), k)
+			fromOld := false
+			core.BackSlice(st.Val, func(x ssa.Value) bool {
+				if u, ok := x.(*ssa.UnOp); ok && u.Op == token.MUL {
+					if oa, ok := u.X.(*ssa.IndexAddr); ok && core.SameExpr(oa, ia) {
+						fromOld = true
+					}
+				}
+				return !fromOld
+			})
+			if fromOld {
+				obs = append(obs, core.Ob(rule, key, p.Pos(st.Pos()), core.FuncName(f), core.Held, "computed from the element's old value"))
+			} else {
+				obs = append(obs, core.Ob(rule, key, p.Pos(st.Pos()), core.FuncName(f), core.Violated, "the new ID does not depend on the ID it replaces (e.g. offset + position): when a series of the operand has no sample at a step, the samples after it are attributed to the wrong series"))
+			}
+		})
+	}
+	return obs
+}
